@@ -4,6 +4,7 @@
 import XonshVerif.Proofs.StringTiling
 import XonshVerif.Proofs.TokStructure
 import XonshVerif.Proofs.TokCover
+import XonshVerif.Proofs.TokOrder
 namespace XV.Tz
 open XV XV.Rx
 
@@ -138,5 +139,29 @@ theorem tokens_are_source_slices (E : Env) (P : Pats) (hP : PseudoProgress P) (s
 example : ((tokenize ⟨[], []⟩ indPats indSrc).toks.filter (fun t => t.ty = .INDENT)).map (fun t => (t.str, t.start, t.stop)) =
     [([32], ⟨2, 0⟩, ⟨2, 1⟩), ([32, 32], ⟨3, 0⟩, ⟨3, 2⟩)] := by decide +kernel
 example : srcText (splitLines indSrc []) ⟨3, 0⟩ ⟨3, 2⟩ = [32, 32] := by decide +kernel
+
+
+/-- **tokens_in_position_order** (the ordering clause of C08).  For every pattern set whose pseudo-token branches make
+    progress and whose f-string scanners consume the brace / closing quote they report (`FstrLen`, a certificate on the
+    shipped patterns), every character environment and every text on which the tokenizer finishes: each token ends at or
+    after its start, and every token starts at or after the end of every earlier token - non-decreasing, non-overlapping
+    position order, for all token kinds including the parts of (nested, multi-line) f-strings. -/
+theorem tokens_in_position_order (E : Env) (P : Pats) (hP : PseudoProgress P) (hF : FstrLen P) (src : List Nat)
+    (hfin : (tokenize E P src).err = none) :
+    (tokenize E P src).toks.Pairwise (fun a b => a.stop ≤ b.start) ∧ ∀ t ∈ (tokenize E P src).toks, t.start ≤ t.stop := by
+  unfold tokenize at hfin ⊢
+  simp only [] at hfin ⊢
+  cases h : tokenizeLines E P ((splitLines src []).length + 2) (splitLines src []) TState.init [] with
+  | error e => rw [h] at hfin; simp at hfin
+  | ok ts =>
+    simp only []
+    obtain ⟨hi, hc⟩ := tokenizeLines_ord E P hP hF _ _ TState.init [] ts ⟨0, 0⟩ ⟨0, 0⟩ rfl
+      (OI.empty (Pos.le_refl' _)) (Chain.nil _) h
+    obtain ⟨a, b⟩ := hc.pairwise
+    exact ⟨a, fun t ht => (b t ht).2.1⟩
+
+
+/-- Non-vacuity: the indentation example is a real chain of 13 tokens. -/
+example : (tokenize ⟨[], []⟩ indPats indSrc).err = none ∧ (tokenize ⟨[], []⟩ indPats indSrc).toks.length = 13 := by decide +kernel
 
 end XV.Tz
